@@ -21,7 +21,9 @@ def step (op res : String) : List String :=
   | [["args", ifi, ifmac, ch, si, yi, wire], out] =>
     match ifi.toNat?, parseHex ifmac, parseHex ch, ip4 si, ip4 yi, parseHex wire with
     | some ifi, some ifmac, some ch, some si, some yi, some wire =>
-      let a : Eth.Args := ⟨ifi, ifmac, ch, si, yi, wire⟩
+      -- what goes out is the reply as gopacket's DHCPv4 layer re-encodes it (no BOOTP padding): `Eth.dhcpLayerBytes`, which this
+      -- engine compares with the real bytes on every frame
+      let a : Eth.Args := ⟨ifi, ifmac, ch, si, yi, Eth.dhcpLayerBytes wire⟩
       let m := Eth.sendEthernet a
       let brs := [if ch.length == 6 then "br:l2.chaddr6" else "br:l2.chaddr-other", if yi == [0,0,0,0] then "br:l2.yiaddr-zero" else "br:l2.yiaddr-set"]
       match out with
@@ -33,7 +35,7 @@ def step (op res : String) : List String :=
           brs ++ ["br:l2.frame"] ++
             (if m == some f then [] else [s!"DIVERGE dom model={match m with | some x => s!"frame to {hexB x.dstMac} / {hexB x.dstIp}:{x.dstPort} from {hexB x.srcMac} / {hexB x.srcIp}:{x.srcPort} ttl {x.ttl}" | none => "no frame"}"]) ++
             (if Eth.frameOK a f then [] else
-              [s!"FAIL C15 link-level unicast: the frame goes to {hexB dm} / {hexB dip} port {dp} (from port {sp}, protocol {proto}, ethertype {et}, payload {if pl == wire then "= the reply" else "NOT the reply"}); the client's hardware address is {hexB ch}, the offered address {hexB yi}"])
+              [s!"FAIL C15 link-level unicast: the frame goes to {hexB dm} / {hexB dip} port {dp} (from port {sp}, protocol {proto}, ethertype {et}, payload {if pl == a.wire then "= the reply" else "NOT the reply"}); the client's hardware address is {hexB ch}, the offered address {hexB yi}"])
         | _, _, _, _, _, _, _, _, _, _, _ => ["DIVERGE drift unparsed-result"]
       | "none" :: _ | ["lost"] =>
         brs ++ ["br:l2.no-frame"] ++
